@@ -1146,7 +1146,8 @@ impl Formatter {
             MatchBody::Expr(expr) => {
                 self.writer.write(" ");
                 self.format_expr(&expr.node);
-                self.writer.newline();
+                // an arm whose body is itself a `match` has ended its last line already
+                self.writer.end_line();
             }
             MatchBody::Block(stmts) => {
                 self.writer.newline();
